@@ -40,6 +40,7 @@ func c11Execute(e *executor.DefaultExecutor, ctx context.Context, job *executor.
 	out := make([]byte, n)
 	for i := range out {
 		out[i] = rt.Uint8("out." + vDigits[k] + "." + vDigits[i])
+		rt.Assume(out[i] != 0) // a NUL byte cannot be carried by an environment variable or a command line
 	}
 	c.Stdout = string(out)
 	if job.Stdout != nil {
